@@ -70,6 +70,9 @@ def corr(c, tier, rng):
     # rests on C11.planar_constraint, re-exported in Props/C04 as planar_layer_invertible
     from props import planar_tri
     planar_tri.corr_planar(c, tier, rng)
+    # density path (transform_and_log_det / inverse_and_log_det) and sampling path (transform / inverse) of the network bijections are the same function
+    from props import oracles
+    oracles.corr_method_agreement(c, tier, rng, nested=False)
 
 
 # ------------------------------------------------------------------ grids
@@ -365,6 +368,15 @@ def configurations(tier, rng):
                         cond = jnp.asarray(seeds[1][2 * ci:2 * ci + 2]) if cd else None
                         return fl, cond, False
                     yield f"{name}|invert={invert}|cond={cd}#{ci}", d, build
+    # conditional block autoregressive networks of depth 2 and 3 (the condition enters after the first layer only), both orientations
+    for depth in (2, 3) if tier != "quick" else (2,):
+        for inv in (True, False):
+            s = rng.randrange(2 ** 30)
+
+            def buildb(s=s, depth=depth, inv=inv):
+                bn = perturb(B.BlockAutoregressiveNetwork(jr.PRNGKey(s % 1000), dim=1, cond_dim=1, depth=depth, block_dim=3), random.Random(s))
+                return Transformed(StandardNormal((1,)), B.Invert(bn) if inv else bn), jnp.asarray([random.Random(s + 1).uniform(0.5, 2.0)]), False
+            yield f"hand:BNAF(cond_dim=1,depth={depth})|invert={inv}", 1, buildb
     # planar layers with weights well away from the 0.01·N(0,1) initialisation (|w| up to 3): the invertibility constraint matters here
     for i in range(4 if tier == "quick" else 16):
         s = rng.randrange(2 ** 30)
